@@ -68,7 +68,9 @@ fn check(ctx: &mut Ctx, text: &str, origin: &str, threaded: bool) -> Result<Opti
     ctx.current(text);
     let r = if threaded {
         ctx.mark(&json!({"text": text}));
-        parse_on_stack(text, 2 << 20)
+        let r = parse_on_stack(text, 2 << 20);
+        ctx.unmark();
+        r
     } else {
         parse_and_check(text)
     };
